@@ -244,7 +244,8 @@ class OutputReference:
                     break
                 overlap += 1
 
-            if overlap > largest_overlap:
+            # VV: the reference points to (a path under) other_loc only if all of other_loc is a prefix of it
+            if overlap == len(other_loc) and overlap > largest_overlap:
                 best = other_loc
                 largest_overlap = overlap
 
@@ -1611,13 +1612,18 @@ class ScopeStack:
                         while location:
                             try:
                                 producer = self.scopes[tuple(location)]
-                                if isinstance(producer.template, Component) is False:
-                                    continue
-                                break
                             except KeyError:
                                 # VV: This location doesn't map to a component. The OutputReference must be pointing
                                 # to an output of a step. Trim one level and check whether that points to a known step.
                                 location = location[:-1]
+                                continue
+
+                            if isinstance(producer.template, Component) is False:
+                                # VV: The longest known prefix is a Workflow (or the reference names a step that
+                                # the workflow does not have). This is not the output of a Component, the conversion
+                                # of OutputReferences to DataReferences reports the error.
+                                producer = None
+                            break
 
                         if not producer:
                             continue
